@@ -60,14 +60,7 @@ pub fn steer(r: &mut Rng, s: &Snap, _cfg: &Cfg, g: &mut GenState, w: &World) -> 
             raw(
                 OWNER,
                 DISPATCHER,
-                &basset_sei_rewards_dispatcher::msg::ExecuteMsg::UpdateConfig {
-                    hub_contract: None,
-                    bsei_reward_contract: None,
-                    stsei_reward_denom: None,
-                    bsei_reward_denom: None,
-                    krp_keeper_address: None,
-                    krp_keeper_rate: Some(dec(r.pick(&rates))),
-                },
+                &crate::setup::mk::<basset_sei_rewards_dispatcher::msg::ExecuteMsg>(serde_json::json!({"update_config": {"krp_keeper_rate": dec(r.pick(&rates))}})),
             )
         }
         5 => {
